@@ -121,6 +121,16 @@ def _closure_callee():
                                       "only the state's memo may change, to a new set", "memoised closures are allocated objects"])])
 
 
+def _new_set(vs):
+    """the set the function builds: THE local that holds the first object allocated by the function (whatever it is called)"""
+    from dv.core import StaleContract
+    first = z3.Int("H0.alloc")
+    hits = [v.addr for v in vs.values() if getattr(v, "cls", None) == "set" and z3.is_expr(getattr(v, "addr", None)) and z3.eq(v.addr, first)]
+    if not hits:
+        raise StaleContract("set_epsilon_closure: no local holds the set allocated first")
+    return hits[0]
+
+
 class _Union:
     """set_epsilon_closure: outer loop over the given states, inner loop over one state's closure"""
 
@@ -130,7 +140,7 @@ class _Union:
         def holds(self, ex, st, st0):
             h, h0 = st.heap, Heap()
             s = st0.vars["state_set"].addr
-            R = st0.vars["result"].addr
+            R = _new_set(st0.vars)
             seen = st.vars["$seen0"].t
             x, y, m = z3.Ints("x!o y!o m!o")
             cur = h.memset(R)
@@ -149,7 +159,7 @@ class _Union:
 
         def holds(self, ex, st, st0):
             h = st.heap
-            R = st0.vars["result"].addr
+            R = _new_set(st0.vars)
             seen = st.vars["$seen1"].t
             x = z3.Int("x!i")
             return [("the result is what it was plus the members visited", z3.ForAll([x], z3.Select(h.memset(R), x) == Or(z3.Select(st0.heap.memset(R), x), z3.Select(seen, x)))),
